@@ -277,12 +277,19 @@ def perturb(t, regime, gen):
                 p.add_(0.5 * torch.randn(p.shape, generator=gen, dtype=p.dtype))
                 if n.endswith('temperature'):
                     p.abs_().clamp_(min=0.05)     # a learnt temperature stays a positive number: log(T) is part of the log-det
+            elif regime == 'extreme':
+                # as 'normal', and the LAST layer's biases pushed far out with alternating signs: the heads of a conditioner (log-scales,
+                # unconstrained scales) then reach values such as -9 and +6, where clamps and floors inside a transformer become active
+                p.add_(0.5 * torch.randn(p.shape, generator=gen, dtype=p.dtype))
+                if n.endswith('final_layer.bias') or n.endswith('l2.bias') or n.endswith('_final_layer.bias'):
+                    pat = torch.tensor([-9.0, 0.0, 6.0, -7.0, 3.0], dtype=p.dtype)
+                    p.add_(pat[torch.arange(p.numel()) % 5].reshape(p.shape))
             elif regime == 'wide':
                 if 'final_layer' in n or 'unnorm' in n or n.startswith('transform_net.l2'):
                     p.mul_(3.0).add_(2.0 * torch.randn(p.shape, generator=gen, dtype=p.dtype))
                 else:
                     p.add_(0.5 * torch.randn(p.shape, generator=gen, dtype=p.dtype))
-        if regime in ('normal', 'wide'):
+        if regime in ('normal', 'wide', 'extreme'):
             # batch-norm layers inside conditioners: running statistics as after some training
             for mod in t.modules():
                 if isinstance(mod, torch.nn.modules.batchnorm._BatchNorm) and mod.running_mean is not None:
